@@ -61,7 +61,10 @@ def _setup(case):
             raise N.RigFailure('client %d did not connect: %r' % (i, res))
     state = {'log': [], 'outcomes': {}, 'deferreds': {}}
     methods = [I.Method(m['name'], 'u' + m['in'], m['out']) for m in case['methods']]
-    iface = I.DBusInterface(IFACE, *methods, noRegister=True)
+    # an older, different declaration of the same interface name exists in this process; declaring it again
+    # (registered, as DBusInterface does by default) makes the new definition the locally known one
+    I.DBusInterface(IFACE, I.Method('Obsolete', 's', 's'), I.Method(case['methods'][0]['name'], 'as', 'b'))
+    iface = I.DBusInterface(IFACE, *methods)
     ns = {'dbusInterfaces': [iface]}
 
     def _impl(self, name, tok, args):
@@ -121,8 +124,7 @@ def _proxy(net, conn, iface, mode, target):
     if mode == 'explicit':
         d = conn.getRemoteObject(svc, '/calc', iface)
     elif mode == 'known':
-        I.DBusInterface.knownInterfaces[IFACE] = iface
-        d = conn.getRemoteObject(svc, '/calc', IFACE)
+        d = conn.getRemoteObject(svc, '/calc', IFACE)      # the definition declared last is the known one
     elif mode == 'introspect-by-name':
         I.DBusInterface.knownInterfaces.pop(IFACE, None)
         d = conn.getRemoteObject(svc, '/calc', IFACE if target % 2 else [IFACE])
